@@ -143,7 +143,7 @@ def value_column(draw, n, dtypes=VAL_DTYPES, regime="exact", name=None, null_mod
 
 
 @st.composite
-def mask_spec(draw, n, kinds=("none", "bool", "slice", "pos"), negative_pos=True):
+def mask_spec(draw, n, kinds=("none", "bool", "slice", "pos"), negative_pos=True, steps=True):
     kind = draw(st.sampled_from(list(kinds)))
     if kind == "none":
         return None
@@ -161,7 +161,12 @@ def mask_spec(draw, n, kinds=("none", "bool", "slice", "pos"), negative_pos=True
         return {"kind": "bool", "vals": vals}
     if kind == "slice":
         b = st.one_of(st.none(), st.integers(-n - 2, n + 2))
-        return {"kind": "slice", "start": draw(b), "stop": draw(b)}
+        m = {"kind": "slice", "start": draw(b), "stop": draw(b)}
+        # (the library rejects stepped slices on chunk-wise factorized keys with NotImplementedError: callers pass steps=False there)
+        step = draw(st.sampled_from([None, None, None, None, -1, 2, -2, 3])) if steps else None
+        if step is not None:
+            m["step"] = step  # array-indexing semantics: a negative step selects the rows in reverse order
+        return m
     if kind == "pos":
         if n == 0:
             return {"kind": "pos", "vals": []}
